@@ -185,25 +185,38 @@ def cases(rng, tier, shard, nshards):
                 tt = pick(rng, lad) * pick(rng, [0.5, 0.999, 1.0, 1.001, 2.0])
                 if (0.0 < tt <= 1.0) if cs == 'r2' else (tt > 0 and np.isfinite(tt)):
                     t = float(tt)
+        # a short history on the SAME array object: other distance / metric / threshold afterwards (state kept
+        # between calls - memoised split points, caches - must not leak from one configuration into the next)
+        follow = []
+        for _ in range(int(rng.integers(0, 3))):
+            c2 = pick(rng, COSTS) if rng.random() < 0.5 else cs
+            follow.append({'cost': c2, 'distance': pick(rng, DISTANCES),
+                           't': t if (c2 == cs and rng.random() < 0.5) else gen.threshold(rng, c2)})
         yield {'points': pts, 'family': meta['family'], 'layout': gen.pick_layout(rng, pts),
-               'cost': cs, 'distance': pick(rng, DISTANCES), 't': t}
+               'cost': cs, 'distance': pick(rng, DISTANCES), 't': t, 'follow': follow}
 
 
 def run_case(ctx, mods, case):
-    rdp = mods['rdp']
     pts = gen.present(case['points'], case['layout'])
-    cs, t = case['cost'], case['t']
+    for step in [case] + list(case.get('follow', [])):
+        run_step(ctx, mods, case, pts, step)
+
+
+def run_step(ctx, mods, case, pts, step):
+    rdp = mods['rdp']
+    cs, t = step['cost'], step['t']
     LAST[0] = None
-    ok, res = install.guarded(ctx, 'complete:rdp.rdp', rdp.rdp, pts, t, distance(mods, case['distance']), cost(mods, cs))
+    ok, res = install.guarded(ctx, 'complete:rdp.rdp', rdp.rdp, pts, t, distance(mods, step['distance']), cost(mods, cs))
     if not ok:
         return
     kept = len(res[0])
     n = len(pts)
     ctx.h('outcome', 'two-kept' if kept == 2 else ('all-kept' if kept == n else 'in-between'))
-    ctx.h('metric_x_distance', f"{cs}/{case['distance']}")
+    ctx.h('metric_x_distance', f"{cs}/{step['distance']}")
+    ctx.h('history_position', 'first' if step is case else 'follow-up on the same array')
     last = LAST[0]
     if last is not None and last[0] >= 1 and last[1] >= 1:
-        ctx.nontriv(case['points'], cs, case['distance'], t)
-        ctx.sample({'family': case['family'], 'n': n, 'cost': cs, 'distance': case['distance'], 't': t,
+        ctx.nontriv(case['points'], cs, step['distance'], t)
+        ctx.sample({'family': case['family'], 'n': n, 'cost': cs, 'distance': step['distance'], 't': t,
                     'points_head': case['points'][:6], 'reduced': res[0][:20],
                     'accepted_segments_with_interior': last[0], 'splits': last[1]})
